@@ -188,6 +188,10 @@ L1 = lambda: 0
 L2 = lambda: 0
 M1 = "abc".upper
 T0 = time.from_timestamp(0)
+def _upd(x, y):
+    d = {x: 1}
+    d[y] = 2
+    return len(d) == 1
 '''
 
 
@@ -331,9 +335,11 @@ OPS = {
     "ins": lambda x, y: y in set([x]),
     "inl": lambda x, y: y in [x],
     "get": lambda x, y: {x: 1}.get(y) == 1,
+    "one": lambda x, y: len(set([x, y])) == 1,
+    "upd": _upd,
 }
 '''
-OPNAMES = ["eq", "ne", "lt", "le", "gt", "ge", "ind", "ins", "inl", "get"]
+OPNAMES = ["eq", "ne", "lt", "le", "gt", "ge", "ind", "ins", "inl", "get", "one", "upd"]
 
 
 def pool_source(items):
@@ -418,13 +424,18 @@ def matrix_records(ctx, items, builds, tag):
     recs = []
     for r in rows:
         recs.append({"id": len(recs) + 1, "op": "row", "b": 1, "i": r["i"], "m": r["m"],
-                     "hash": {"ok": r["hash"]["ok"], "oks": r["hash"]["oks"], "h": r["hash"]["h"]}})
+                     "hash": {"ok": r["hash"]["ok"], "oks": r["hash"]["oks"], "h": r["hash"]["h"]},
+                     "hf": {"ok": r["hf"]["ok"], "v": r["hf"].get("v", [])}})
+        if r["hf"].get("panic"):
+            raise vlib.MachineryError("hash(%s): %s" % (items[r["i"] - 1][1].src(), r["hf"]["panic"]))
     for bi, (h2, v2, r2) in enumerate(outs[1:], start=2):
         # the recorded relations must be identical on every Int representation (raw hashes differ
         # between processes: string hashing is seeded per process)
         if h2["limit"] != hdr["limit"] or [canon(x["enc"]) for x in v2] != [canon(x["enc"]) for x in vals]:
             raise vlib.MachineryError("build %s: pool values differ from build %s" % (builds[bi - 1], builds[0]))
         for ra, rb in zip(rows, r2):
+            if ra["hf"] != rb["hf"]:
+                ctx.divergent.append((builds[bi - 1], "hash-builtin", ra["i"], 0, ra["hf"], rb["hf"]))
             if ra["m"] != rb["m"]:
                 op = [o for o in OPNAMES if ra["m"][o] != rb["m"][o]][0]
                 j = [k for k in range(n) if ra["m"][op][k] != rb["m"][op][k]][0]
@@ -443,7 +454,11 @@ def tlc_validate(ctx, hdr, descs, sdescs, recs, tag):
     r = ctx.tlc("C11Trace", "C11Trace.cfg", env={"VERIF_POOL": fp, "VERIF_RECS": fr}, workers=vlib.NCPU,
                 heap="12g", timeout=3000, tag=tag)
     bad, notfirst, checked = [], [], None
+    ctx.tlc_notes = getattr(ctx, "tlc_notes", [])
     for l in r["printed"]:
+        m = re.match(r'<<"NOTE", (\d+), "([^"]*)">>', l)
+        if m:
+            ctx.tlc_notes.append((int(m.group(1)), m.group(2)))
         m = re.match(r'<<"BAD", (\d+), "([^"]*)", (\d+), (\d+), (\d+)>>', l)
         if m:
             bad.append((int(m.group(1)), m.group(2), int(m.group(3)), int(m.group(4)), int(m.group(5))))
@@ -488,16 +503,26 @@ def sort_cases(ctx, rnd):
     index = {id(v): k + 1 for k, v in enumerate(pool)}
     cases = []
 
-    def emit(seq, keyed, classes=1):
+    counter = [0]
+
+    def emit(seq, keyed):
         idx = [index[id(v)] for v in seq]
         lst = "[" + ", ".join(v.src() for v in seq) + "]"
         ka = ", key = lambda t: t[0]" if keyed else ""
+        # every third sequence uses the other call forms: a tuple as the iterable, min/max with
+        # several positional arguments
+        counter[0] += 1
+        alt = counter[0] % 3 == 0
+        it = ("(" + "".join(v.src() + ", " for v in seq) + ")") if alt else lst
         for rev in (False, True):
             cases.append({"op": "sorted", "s": idx, "key": "t0" if keyed else "id", "rev": rev,
-                          "src": "sorted(%s%s%s)" % (lst, ka, ", reverse = True" if rev else "")})
+                          "src": "sorted(%s%s%s)" % (it, ka, ", reverse = True" if rev else "")})
         for op in ("min", "max"):
-            cases.append({"op": op, "s": idx, "key": "t0" if keyed else "id", "rev": False,
-                          "src": "%s(%s%s)" % (op, lst, ka)})
+            if alt and len(seq) >= 2:
+                src = "%s(%s%s)" % (op, ", ".join(v.src() for v in seq), ka)
+            else:
+                src = "%s(%s%s)" % (op, lst, ka)
+            cases.append({"op": op, "s": idx, "key": "t0" if keyed else "id", "rev": False, "src": src})
     maxlen = 4 if ctx.quick else 5
     for n in range(0, maxlen + 1):
         for seq in itertools.product(num, repeat=n):
@@ -638,7 +663,11 @@ def run(ctx):
     # ---- re-execute every rejected instance alone before reporting it
     byid = {c["id"] + nrow: c for c in cases}
     seen = set()
+    MAXSIG = 12          # every reported signature costs one re-execution (harness + TLC)
     for rid, law, j, k, cnt in bad:
+        if len(seen) >= MAXSIG:
+            ctx.log("more rejected records exist; only the first %d signatures are re-executed and reported" % MAXSIG)
+            break
         if rid <= nrow:
             rec = recs[rid - 1]
             i = rec["i"]
@@ -706,6 +735,9 @@ def run(ctx):
     ctx.cov["sort_cases_per_op"] = {o: sum(1 for c in cases if c["op"] == o) for o in ("sorted", "min", "max")}
     ctx.cov["min_max_not_first_extremum"] = len(notfirst)
     ctx.cov["compare_limit"] = hdr["limit"]
+    for rid, what in sorted(set(getattr(ctx, "tlc_notes", []))):
+        if rid <= nrow:
+            ctx.notes.append("%s: %s (not judged: outside the property)" % (what, items[recs[rid - 1]["i"] - 1][1].src()))
     ctx.samples = [{"x": items[r["i"] - 1][1].src()[:60], "y": items[j][1].src()[:60],
                     "observed": {o: r["m"][o][j] for o in OPNAMES}}
                    for r in rows[:: max(1, n // 4)] for j in (rnd.randrange(n),)][:5]
